@@ -1402,6 +1402,26 @@ theorem faithful (cfg : Config) (els : List (SpecEl ν)) (h : ∀ e ∈ els, Wel
   obtain ⟨c, d, k, hr⟩ := doc_faithful cfg els false true none h
   simp only [parse, PState.init, hr]
 
+/-- **C16.faithful_splice** — document-level locality of well-formed documents, for every configuration and
+every pair of element lists of any length: the spectra of a concatenated document are the concatenation of the
+spectra of its parts, and inserting (or, read right to left, removing) one well-formed element `e` anywhere
+adds (removes) exactly `denote cfg e` at that position and changes no other spectrum. -/
+theorem faithful_splice (cfg : Config) (a b : List (SpecEl ν)) (e : SpecEl ν)
+    (ha : ∀ x ∈ a, WellFormed x) (hb : ∀ x ∈ b, WellFormed x) (he : WellFormed e) :
+    parse cfg ((a ++ b).flatMap SpecEl.events) = .ok (denoteDoc cfg a ++ denoteDoc cfg b) ∧
+    parse cfg ((a ++ e :: b).flatMap SpecEl.events) =
+      .ok (denoteDoc cfg a ++ (denote cfg e).toList ++ denoteDoc cfg b) := by
+  constructor
+  · rw [faithful cfg (a ++ b) (fun x hx => (List.mem_append.mp hx).elim (ha x) (hb x))]
+    simp [denoteDoc, List.filterMap_append]
+  · rw [faithful cfg (a ++ e :: b) (fun x hx => by
+      rcases List.mem_append.mp hx with h | h
+      · exact ha x h
+      · rcases List.mem_cons.mp h with h | h
+        · exact h ▸ he
+        · exact hb x h)]
+    cases hd : denote cfg e <;> simp [denoteDoc, List.filterMap_append, hd]
+
 /-- **C16.locality** — after ANY event prefix `pre` (well-formed or not, as long as the reader got
 through it) that ends a spectrum, the spectrum emitted for a well-formed element `e` is `denote e`,
 which is a function of `e` and the configuration alone: nothing read before `e` reaches it. -/
